@@ -43,12 +43,12 @@ Proofs/NameWireP.vos Proofs/NameWireP.vok Proofs/NameWireP.required_vos: Proofs/
 Proofs/NameWireSP.vo Proofs/NameWireSP.glob Proofs/NameWireSP.v.beautified Proofs/NameWireSP.required_vo: Proofs/NameWireSP.v Base/ListX.vo Spec/NameWireS.vo
 Proofs/NameWireSP.vio: Proofs/NameWireSP.v Base/ListX.vio Spec/NameWireS.vio
 Proofs/NameWireSP.vos Proofs/NameWireSP.vok Proofs/NameWireSP.required_vos: Proofs/NameWireSP.v Base/ListX.vos Spec/NameWireS.vos
-Props/C12.vo Props/C12.glob Props/C12.v.beautified Props/C12.required_vo: Props/C12.v Base/ListX.vo Model/MsgWriter.vo Proofs/MsgWriterP.vo Proofs/MsgWriterScanP.vo Proofs/MsgWriterNameP.vo Proofs/MsgWriterInvP.vo Proofs/MsgWriterTopP.vo
-Props/C12.vio: Props/C12.v Base/ListX.vio Model/MsgWriter.vio Proofs/MsgWriterP.vio Proofs/MsgWriterScanP.vio Proofs/MsgWriterNameP.vio Proofs/MsgWriterInvP.vio Proofs/MsgWriterTopP.vio
-Props/C12.vos Props/C12.vok Props/C12.required_vos: Props/C12.v Base/ListX.vos Model/MsgWriter.vos Proofs/MsgWriterP.vos Proofs/MsgWriterScanP.vos Proofs/MsgWriterNameP.vos Proofs/MsgWriterInvP.vos Proofs/MsgWriterTopP.vos
-Props/C13.vo Props/C13.glob Props/C13.v.beautified Props/C13.required_vo: Props/C13.v Base/ListX.vo Model/MsgWriter.vo Proofs/MsgWriterP.vo Proofs/MsgWriterScanP.vo Proofs/MsgWriterNameP.vo Proofs/MsgWriterTabP.vo Proofs/MsgWriterTopP.vo
-Props/C13.vio: Props/C13.v Base/ListX.vio Model/MsgWriter.vio Proofs/MsgWriterP.vio Proofs/MsgWriterScanP.vio Proofs/MsgWriterNameP.vio Proofs/MsgWriterTabP.vio Proofs/MsgWriterTopP.vio
-Props/C13.vos Props/C13.vok Props/C13.required_vos: Props/C13.v Base/ListX.vos Model/MsgWriter.vos Proofs/MsgWriterP.vos Proofs/MsgWriterScanP.vos Proofs/MsgWriterNameP.vos Proofs/MsgWriterTabP.vos Proofs/MsgWriterTopP.vos
+Props/C12.vo Props/C12.glob Props/C12.v.beautified Props/C12.required_vo: Props/C12.v Spec/MsgWriterS.vo Base/ListX.vo Model/MsgWriter.vo Proofs/MsgWriterP.vo Proofs/MsgWriterScanP.vo Proofs/MsgWriterNameP.vo Proofs/MsgWriterInvP.vo Proofs/MsgWriterTopP.vo
+Props/C12.vio: Props/C12.v Spec/MsgWriterS.vio Base/ListX.vio Model/MsgWriter.vio Proofs/MsgWriterP.vio Proofs/MsgWriterScanP.vio Proofs/MsgWriterNameP.vio Proofs/MsgWriterInvP.vio Proofs/MsgWriterTopP.vio
+Props/C12.vos Props/C12.vok Props/C12.required_vos: Props/C12.v Spec/MsgWriterS.vos Base/ListX.vos Model/MsgWriter.vos Proofs/MsgWriterP.vos Proofs/MsgWriterScanP.vos Proofs/MsgWriterNameP.vos Proofs/MsgWriterInvP.vos Proofs/MsgWriterTopP.vos
+Props/C13.vo Props/C13.glob Props/C13.v.beautified Props/C13.required_vo: Props/C13.v Spec/MsgWriterS.vo Base/ListX.vo Model/MsgWriter.vo Proofs/MsgWriterP.vo Proofs/MsgWriterScanP.vo Proofs/MsgWriterNameP.vo Proofs/MsgWriterTabP.vo Proofs/MsgWriterTopP.vo
+Props/C13.vio: Props/C13.v Spec/MsgWriterS.vio Base/ListX.vio Model/MsgWriter.vio Proofs/MsgWriterP.vio Proofs/MsgWriterScanP.vio Proofs/MsgWriterNameP.vio Proofs/MsgWriterTabP.vio Proofs/MsgWriterTopP.vio
+Props/C13.vos Props/C13.vok Props/C13.required_vos: Props/C13.v Spec/MsgWriterS.vos Base/ListX.vos Model/MsgWriter.vos Proofs/MsgWriterP.vos Proofs/MsgWriterScanP.vos Proofs/MsgWriterNameP.vos Proofs/MsgWriterTabP.vos Proofs/MsgWriterTopP.vos
 Props/C14.vo Props/C14.glob Props/C14.v.beautified Props/C14.required_vo: Props/C14.v Base/ListX.vo Model/NameWire.vo Spec/NameWireS.vo Spec/NameRepr.vo Proofs/NameWireP.vo Proofs/NameWireSP.vo
 Props/C14.vio: Props/C14.v Base/ListX.vio Model/NameWire.vio Spec/NameWireS.vio Spec/NameRepr.vio Proofs/NameWireP.vio Proofs/NameWireSP.vio
 Props/C14.vos Props/C14.vok Props/C14.required_vos: Props/C14.v Base/ListX.vos Model/NameWire.vos Spec/NameWireS.vos Spec/NameRepr.vos Proofs/NameWireP.vos Proofs/NameWireSP.vos
